@@ -1,5 +1,5 @@
 (* C10: proofs about Model/C10.v against Model/C10_Spec.v *)
-From Coq Require Import List ZArith Bool String Ascii Lia.
+From Coq Require Import List ZArith Bool String Ascii Lia Setoid.
 Import ListNotations.
 Require Import Verif.Model.C10 Verif.Model.C10_Spec.
 Open Scope string_scope.
@@ -141,6 +141,48 @@ Theorem parse_directive_none s : parse_directive s = None <-> prefix lint_prefix
 Proof.
   unfold parse_directive. destruct (prefix lint_prefix s); split; intro H; try reflexivity; try discriminate.
   pose proof (split_nonempty space (drop 7 s)). destruct (split space (drop 7 s)); [contradiction|discriminate].
+Qed.
+
+(* ------------------------------------------------------------------ "has a reason" in terms of the comment text *)
+Fixpoint all_space (s : string) : bool :=
+  match s with EmptyString => true | String c r => Ascii.eqb c space && all_space r end.
+
+Lemma all_space_app a b : all_space (a ++ b) = all_space a && all_space b.
+Proof. induction a as [|c a IH]; [reflexivity|]. simpl. rewrite IH, andb_assoc. reflexivity. Qed.
+Lemma all_space_nospace x : has_char space x = false -> (all_space x = true <-> x = EmptyString).
+Proof.
+  destruct x as [|c x]; [intros _; split; reflexivity|]. cbn [has_char all_space]. intro H. apply orb_false_iff in H as [H _].
+  rewrite Ascii.eqb_sym, H. cbn [andb]. split; discriminate.
+Qed.
+Lemma app_empty a b : (a ++ b)%string = EmptyString <-> a = EmptyString /\ b = EmptyString.
+Proof. destruct a; simpl; split; [auto|intros [_ H]; exact H|discriminate|intros [H _]; discriminate]. Qed.
+
+Lemma concat_all_empty_iff r :
+  (forall x, In x r -> has_char space x = false) ->
+  (concat_all r = EmptyString <-> all_space (join space r) = true).
+Proof.
+  induction r as [|x r IH]; intro Hall; [split; reflexivity|].
+  assert (Hx := Hall x (or_introl eq_refl)).
+  assert (Hr : forall y, In y r -> has_char space y = false) by (intros; apply Hall; right; assumption).
+  simpl concat_all. rewrite app_empty, (IH Hr). destruct r as [|y r'].
+  - cbn [join all_space]. pose proof (all_space_nospace x Hx). tauto.
+  - rewrite (join_cons space x (y :: r')) by discriminate. rewrite all_space_app. cbn [all_space]. rewrite Ascii.eqb_refl. cbn [andb].
+    rewrite andb_true_iff. pose proof (all_space_nospace x Hx). tauto.
+Qed.
+
+(* a directive has a reason iff the text after the name list contains a character other than a space *)
+Theorem has_reason_text s c args :
+  parse_directive s = Some (c, args) ->
+  (has_reason args = true <-> exists names rest, args = names :: rest /\ all_space (join space rest) = false).
+Proof.
+  intro H. apply parse_directive_spec in H as [_ Hall].
+  destruct args as [|names rest]; cbn [has_reason].
+  - split; [discriminate|]. intros (? & ? & E & _). discriminate.
+  - assert (Hr : forall y, In y rest -> has_char space y = false) by (intros; apply Hall; right; right; assumption).
+    pose proof (concat_all_empty_iff rest Hr) as E. rewrite negb_true_iff. split.
+    + intro Hn. exists names, rest. split; [reflexivity|]. destruct (all_space (join space rest)); [|reflexivity].
+      rewrite (proj2 E eq_refl) in Hn. discriminate.
+    + intros (n & r & Eq & Hs). injection Eq as <- <-. apply String.eqb_neq. intro Hc. rewrite (proj1 E Hc) in Hs. discriminate.
 Qed.
 
 (* ------------------------------------------------------------------ parseDirectives *)
